@@ -43,6 +43,8 @@ type scenario struct {
 	direct bool
 	// wantExit: exit status of the uninterrupted command
 	wantExit int
+	// stdinFile: file (relative to the repository) whose bytes are fed to the command's stdin
+	stdinFile string
 	// wtWriter: the command writes working-tree files. A kill can leave one truncated; Git
 	// (not git-lfs) then runs the clean filter on it during the re-run, which stores one
 	// more, self-consistent object. Such extra valid objects are tolerated and counted.
@@ -131,7 +133,7 @@ func scenarios(thorough bool) []scenario {
 			}},
 	}
 	more := []scenario{
-		{name: "lfs-clean-oneshot", prog: "git-lfs", args: []string{"clean", "--", "big.bin"}, crashCmd: "clean", direct: true,
+		{name: "lfs-clean-oneshot", prog: "git-lfs", args: []string{"clean", "--", "big.bin"}, crashCmd: "clean", direct: true, stdinFile: "big.bin",
 			build: func(env *sbx.Env, srv *fakelfs.Server, r *rand.Rand) string {
 				repo := env.InitRepo("repo")
 				writeFile(filepath.Join(repo, ".gitattributes"), []byte(attrs))
@@ -235,6 +237,16 @@ func scenarios(thorough bool) []scenario {
 
 var shmDirs []string
 
+func (sc scenario) opt(dir string, env []string) sbx.RunOpt {
+	o := sbx.RunOpt{Dir: dir, Env: env}
+	if sc.stdinFile != "" {
+		if b, err := os.ReadFile(filepath.Join(dir, sc.stdinFile)); err == nil {
+			o.Stdin = bytes.NewReader(b)
+		}
+	}
+	return o
+}
+
 type pair struct {
 	point string
 	n     int
@@ -326,7 +338,15 @@ func main() {
 	all := scenarios(run.Thorough())
 	var chosen []scenario
 	if run.Thorough() {
-		chosen = all
+		for v := 0; v < 3; v++ {
+			for _, sc := range all {
+				sc := sc
+				if v > 0 {
+					sc.name = fmt.Sprintf("%s#v%d", sc.name, v)
+				}
+				chosen = append(chosen, sc)
+			}
+		}
 	} else {
 		chosen = append(chosen, all[:3]...)
 		rest := all[3:]
@@ -377,7 +397,7 @@ func main() {
 			clog := filepath.Join(env.Root, "crash.log")
 			strlog := filepath.Join(env.Root, "strace.log")
 			args := append([]string{"-f", "-qq", "-y", "-e", "trace=openat,open,creat,rename,renameat,renameat2,link,linkat,unlink,unlinkat,truncate,ftruncate", "-o", strlog, sc.prog}, sc.args...)
-			res := env.Run(sbx.RunOpt{Dir: work, Env: []string{"VERIF_CRASH_LOG=" + clog, "VERIF_CRASH_GLOBAL=1"}}, "strace", args...)
+			res := env.Run(sc.opt(work, []string{"VERIF_CRASH_LOG=" + clog, "VERIF_CRASH_GLOBAL=1"}), "strace", args...)
 			run.Count("uninterrupted_runs", 1)
 			if res.Code != sc.wantExit {
 				run.Inconclusive(fmt.Sprintf("scenario %s: uninterrupted run exited %d, expected %d: %s", sc.name, res.Code, sc.wantExit, sbx.Trunc(res.Stderr, 600)))
@@ -573,7 +593,7 @@ func killOne(run *evid.Run, env *sbx.Env, pre string, golden storeState, j job, 
 	defer os.Remove(clog)
 	if j.kind == "hook" {
 		class = fmt.Sprintf("%s/hook/%s", sc.name, j.p.point)
-		res = env.Run(sbx.RunOpt{Dir: work, Env: []string{fmt.Sprintf("VERIF_CRASH=%s:%d", j.p.point, j.p.n), "VERIF_CRASH_CMD=" + sc.crashCmd, "VERIF_CRASH_LOG=" + clog, "VERIF_CRASH_GLOBAL=1"}}, sc.prog, sc.args...)
+		res = env.Run(sc.opt(work, []string{fmt.Sprintf("VERIF_CRASH=%s:%d", j.p.point, j.p.n), "VERIF_CRASH_CMD=" + sc.crashCmd, "VERIF_CRASH_LOG=" + clog, "VERIF_CRASH_GLOBAL=1"}), sc.prog, sc.args...)
 		if b, err := os.ReadFile(clog); err == nil && bytes.Contains(b, []byte(" KILLED ")) {
 			killed = true
 		}
@@ -582,13 +602,13 @@ func killOne(run *evid.Run, env *sbx.Env, pre string, golden storeState, j job, 
 		class = fmt.Sprintf("%s/strace-path/%s/%s", sc.name, area, strings.SplitN(j.sys, ",", 2)[0])
 		abs := filepath.Join(gitDir, "lfs", j.path)
 		args := append([]string{"-f", "-b", "execve", "-qq", "-o", "/dev/null", "-P", abs, "-e", "trace=" + j.sys, "-e", fmt.Sprintf("inject=%s:signal=SIGKILL:when=%d", j.sys, j.p.n), sc.prog}, sc.args...)
-		res = env.Run(sbx.RunOpt{Dir: work}, "strace", args...)
+		res = env.Run(sc.opt(work, nil), "strace", args...)
 		killed = res.Code != sc.wantExit || res.Signal != ""
 	} else {
 		class = fmt.Sprintf("%s/strace/%s", sc.name, strings.SplitN(j.sys, ",", 2)[0])
 		// -b execve: children that exec another program (git) are detached, so only git-lfs itself is killed
 		args := append([]string{"-f", "-b", "execve", "-qq", "-o", "/dev/null", "-e", "trace=" + j.sys, "-e", fmt.Sprintf("inject=%s:signal=SIGKILL:when=%d", j.sys, j.p.n), sc.prog}, sc.args...)
-		res = env.Run(sbx.RunOpt{Dir: work}, "strace", args...)
+		res = env.Run(sc.opt(work, nil), "strace", args...)
 		killed = res.Code != sc.wantExit || res.Signal != ""
 	}
 	run.Count("kill_runs", 1)
@@ -612,7 +632,7 @@ func killOne(run *evid.Run, env *sbx.Env, pre string, golden storeState, j job, 
 	}
 	run.Count("post_kill_store_checks", 1)
 	// re-run the same command
-	re := env.Run(sbx.RunOpt{Dir: work}, sc.prog, sc.args...)
+	re := env.Run(sc.opt(work, nil), sc.prog, sc.args...)
 	run.Count("reruns", 1)
 	if re.GoCrash() {
 		run.Violation(evid.Sig{Symptom: "go-panic-on-rerun", Trigger: trig}, sbx.Trunc(re.Stderr, 1500), detail)
